@@ -276,9 +276,11 @@ def run_case(case, ctx):
             n, loop = G.forest_len(forest)
             trees = []
             if not loop:
-                trees = [("GLR forest[%d]" % i, forest[i]) for i in range(min(n, 200 if ctx.tier == "thorough" else 40))]
+                ntrees = 40 if case.get("pin") or ctx.tier != "thorough" else 200
+                trees = [("GLR forest[%d]" % i, forest[i]) for i in range(min(n, ntrees))]
                 trees.append(("GLR nonlazy[0]", forest.get_nonlazy_tree(0)))
             trees.append(("GLR get_first_tree", forest.get_first_tree()))
+            d17_obs = []
             for who, t in trees:
                 try:
                     he, _ = check_tree(t, text, lex, who, ctx, info, collect_span=True)
@@ -296,11 +298,36 @@ def run_case(case, ctx):
                     region = text[a:b]
                     ok_bare = a <= b and lex.skip(region, 0) == len(region)
                     if ok_bare:
-                        ctx.known("D17", sd.kind, **sd.details)
+                        d17_obs.append([who, sd.kind] + [repr(sd.details.get(k)) for k in
+                                                        ("node", "span", "parent", "parent_span", "start", "end",
+                                                         "child", "child_start", "previous_end")])
+                        if not case.get("pin"):
+                            ctx.known("D17", sd.kind, **sd.details)
                         he = True
                     else:
                         ctx.fail(sd.kind, **sd.details)
                 has_empty_any = has_empty_any or bool(he)
+            if case.get("pin"):
+                # pinned corpus of the D17 class: the recorded manifestation (which node of which tree
+                # disagrees with which parent) is required exactly, so that another defect that shows as
+                # 'spans disagree by layout only' is still reported
+                from ..core import stable_hash
+                ckey = stable_hash([case["g"], case["layout"], case["fill"], case["max_len"]])
+                key = stable_hash([case["g"], case["layout"], text])
+                now = stable_hash(d17_obs) if d17_obs else "clean"
+                rec = ctx.__dict__.get("_recording")
+                if rec is not None:
+                    rec.setdefault("cases", set()).add(ckey)
+                    if d17_obs:
+                        rec.setdefault("pins", {})[key] = now
+                elif ckey in d17_pins()["cases"]:
+                    ctx.label("compared-with-recorded-behaviour")
+                    want = d17_pins()["pins"].get(key, "clean")
+                    if want != now:
+                        ctx.fail("behaviour-differs-from-recorded-finding", recorded=want, now=now,
+                                 discrepancies=d17_obs[:3], **info)
+                    if d17_obs:
+                        ctx.label("recorded D17 manifestation confirmed")
             ctx.label("glr-trees-checked", len(trees))
         else:
             ctx.label("glr-not-accepted (C01/C02's subject)")
@@ -455,6 +482,54 @@ def strat_obj(tier):
     return c()
 
 
+_D17 = None
+
+
+def d17_pins():
+    global _D17
+    if _D17 is None:
+        import json
+        import os
+        from .. import VERIF_DIR
+        path = os.path.join(VERIF_DIR, "regress", "C08", "D17-pins.json")
+        data = json.load(open(path)) if os.path.exists(path) else {"cases": [], "pins": {}}
+        _D17 = {"cases": set(data["cases"]), "pins": data["pins"]}
+    return _D17
+
+
+TRAILING_EMPTY = [
+    # an EMPTY production at the end / in the middle / at the start of a rule next to another derivation of
+    # the same non-terminal over the same tokens: the shapes on which GLR alternatives have different spans
+    {"nts": ["S", "A", "E"], "prods": [["S", ["A", "c"]], ["A", ["b", "E"]], ["A", ["b"]], ["E", []]]},
+    {"nts": ["S", "A", "B", "C", "E"], "prods": [["S", ["A", "C"]], ["A", ["B", "E"]], ["A", ["B"]], ["E", []],
+                                                  ["B", ["b"]], ["C", ["c"]]]},
+    {"nts": ["S", "X", "A", "E"], "prods": [["S", ["X", "c"]], ["X", ["A"]], ["A", ["b", "E"]], ["A", ["b"]],
+                                             ["E", []]]},
+    {"nts": ["S", "A", "E"], "prods": [["S", ["A", "A"]], ["A", ["b", "E"]], ["A", ["b"]], ["A", ["E"]], ["E", []]]},
+    {"nts": ["S", "A", "E"], "prods": [["S", ["c", "A"]], ["A", ["E", "b"]], ["A", ["b"]], ["E", []]]},
+    {"nts": ["S", "A", "E"], "prods": [["S", ["A", "c", "A"]], ["A", ["b", "E", "b"]], ["A", ["b", "b"]], ["A", ["E"]],
+                                       ["E", []]]},
+]
+
+
+def enum_d17(tier):
+    def it():
+        fills = (("ws", ["", " ", "\n ", ""]), ("ws", [" ", "  ", "", "\t"]),
+                 ("comments", ["", "// c\n", " /* a /* b */ */ ", " "]))
+        for g0 in TRAILING_EMPTY:
+            g = dict(g0, terms=[["b", "str", "b"], ["c", "str", "c"]])
+            for layout, fill in fills:
+                yield {"g": g, "lex": "L0", "layout": layout, "fill": fill, "max_len": 4, "pin": True}
+        for name, g in gen.CLASSICS.items():
+            for layout, fill in fills[:2]:
+                yield {"g": g, "lex": "L0", "layout": layout, "fill": fill,
+                       "max_len": 4 if len(g["terms"]) <= 2 else 3, "pin": True}
+        for i, g in enumerate(gen.epsilon_family()):
+            if i % 6 == 0:
+                yield {"g": g, "lex": "L0", "layout": "ws", "fill": [" ", "", "\n"], "max_len": 3, "pin": True}
+    return it()
+
+
 def strat_l0(tier):
     return _case(gen.cfgs(max_nts=3, max_alts=3, max_rhs=3), "L0")
 
@@ -520,6 +595,7 @@ SUBCHECKS = [
     SubCheck("random-L1-tokens-across-layout", run_case, strategy=strat_l1_space,
              examples={"quick": 960, "thorough": 9600}),
     SubCheck("nullable-chain-family", run_case, strategy=strat_chain, examples={"quick": 640, "thorough": 6400}),
+    SubCheck("d17-pinned-corpus", run_case, enumerate=enum_d17),
     SubCheck("objects-carry-node-positions", run_obj, strategy=strat_obj, examples={"quick": 640, "thorough": 6400}),
 ]
 
